@@ -91,6 +91,26 @@ PROPS = {
         "modelled": COMMON_MODELLED,
         "assumptions": ["source and destination are distinct objects (s.Transfer(s) does not terminate; outside the model)"],
     },
+    "C04": {
+        "lean": ["Stackage.Props.C04"],
+        "streams": [{"name": "roundtrip", "quick": 3000, "thorough": 60000}],
+        "rule": "random trees (depth <= 3 quick / 5 thorough) of AND/OR/NOT/LIST/BASIC stacks (empty ones, folded labels, capacities included), Conditions whose "
+                "expression is a primitive, a Stack or a Condition, primitive and nil leaves (also leaves equal to label words); Unmarshal, then Marshal into a zero Stack "
+                "through both calling conventions (Marshal(u...) and Marshal(u)); compared: the unmarshalled slice, the reconstructed tree, the fixpoint (Unmarshal again, "
+                "labels case-insensitively) and IsEqual(original, reconstruction) where no capacity / case-folding is involved; non-trivial = tree with a nested node",
+        "modelled": COMMON_MODELLED,
+        "assumptions": ["no custom marshaler / unmarshaler closures (C14)", "IsEqual between original and reconstruction is checked on the implementation; its model-side theorem follows the C05 merge"],
+    },
+    "C16": {
+        "lean": ["Stackage.Props.C16"],
+        "streams": [{"name": "anytrees", "quick": 4000, "thorough": 80000}],
+        "rule": "random []any trees (depth <= 3 quick / 5 thorough): labels in any case (incl. dotless-i / long-s spellings), junk and empty strings, numbers, nil, typed nil, "
+                "operators (valid, ComparisonOperator(0), user-defined, empty text, nil), ready-made Stacks / aliases / Conditions, zero-valued instances, funcs, maps, "
+                "CONDITION rows with 0-6 fields and wrong types, empty and nested single-element envelopes; receivers: zero Stack, initialised Stack, initialised Stack "
+                "with capacity; compared: error or not, receiver initialised or not, the decoded tree, and that String / Unmarshal / IsEqual then return normally",
+        "modelled": COMMON_MODELLED,
+        "assumptions": ["totality of the Lean definitions carries 'never panics'; the stream ties it to the code"],
+    },
     "C06": {
         "lean": ["Stackage.Props.C06"],
         "streams": [{"name": "condhist", "quick": 4000, "thorough": 80000}],
@@ -188,7 +208,13 @@ def _c03(out):
     return " ; ".join(steps)
 
 
+def _c04(out):
+    # the model does not compute IsEqual yet: Q is compared on the implementation against the specification only
+    return re.sub(r" Qskip", " Qok", out) if "Qskip" in out else out
+
+
 PROJ = {
+    "C04": _c04,
     "C01": _keep("ret", "L", "I", "F", "B", "E"),
     "C08": _keep("ret", "L", "I", "F", "B", "E", "c", "a", "u"),
     "C03": _c03,
@@ -222,6 +248,8 @@ def nontrivial(pid, payload):
         return payload.count(" ") >= 6
     if pid == "C18":
         return " | " in payload and len(ops) >= 2
+    if pid in ("C04", "C16"):
+        return payload.count("[") >= 2
     if pid in ("C13", "C14", "C06"):
         return len(ops) >= 2
     return len(ops) >= 3 and len(kinds) >= 2
